@@ -64,6 +64,13 @@ LemmaPoll == Lemma \in {"poll", "all"} =>
             k  == RunPoll(InitState, S, [Cfg(7, q, TRUE) EXCEPT !.sock = TRUE], GoodNmea, 2)
         IN /\ ItemsEq(f.out, R(S, 7, q, TRUE).out) /\ f.pc = "done"
            /\ k.pc = "done" /\ Slices(k, S, NmeaB2)
+\* errors raised, caught by the caller, iteration resumed (C06 / C07 / C11 resume runs): the same items as under ERR_LOG, one raise per
+\* rejected element, nothing left unread
+LemmaResume == Lemma \in {"resume", "all"} =>
+    \A f \in {7, 1, 2, 4, 5} :
+        LET lg == R(S, f, 1, TRUE)
+            rs == RunResume(InitState, S, Cfg(f, 2, TRUE), GoodNmea, 2 * Len(S) + 2)
+        IN rs.pc = "done" /\ ItemsEq(rs.out, lg.out) /\ rs.pos = Len(S) /\ Len(rs.errs) = Len(lg.errs)
 \* DEMONSTRATION (expected to be violated, documents what the code does): over a socket wrapper a polling caller of a CUT stream can
 \* be handed an item the uncut stream never yields - the frame nested in the payload of the frame the cut fell into
 LemmaPollCutSock == Lemma = "pollcut" =>
